@@ -18,6 +18,8 @@ def stepC38 : List String → String
       else if op = "keystore" then "unpredictable"
       -- no entropy, no secret: with the OS source failing a producer can only report the failure
       else if op = "noentropy" then "error"
+      -- a producer on the OS source is a function of the stream (C38_os_secret_function_of_stream)
+      else if op = "entropy" then "tracks"
       else "bad-op"
   | _ => "bad-op"
 
